@@ -168,9 +168,8 @@ package iso7816
 //@ func (nfc *NfcSession) ReadBinaryFromOffset
 //@   props C13 C11
 //@   requires nfc != nil
-//@   requires "offset16": 0 <= offset && offset <= 65535
 //@   ensures "chunk-is-file-segment": err == nil ==> len(result0) <= length && offset + len(result0) <= len(ef(nfc))
-//@        && result0 === ef(nfc)[offset : offset + len(result0)]
+//@        && 0 <= offset && offset <= 65535 && result0 === ef(nfc)[offset : offset + len(result0)]
 //@   ensures err != nil ==> result0 == nil
 //@   assigns nfc.lastApduLogEntry, content(nfc.apduLog), content(nfc.sm)
 //@   safety all
@@ -178,7 +177,6 @@ package iso7816
 //@ func (nfc *NfcSession) readWithFallback
 //@   props C13 C11
 //@   requires nfc != nil
-//@   requires "offset16": 0 <= offset && offset <= 65535
 //@   ensures "chunk-is-file-segment": err == nil ==> len(result0) <= remaining && offset + len(result0) <= len(ef(nfc))
 //@        && result0 === ef(nfc)[offset : offset + len(result0)]
 //@   ensures "max-only-decreases": result1 <= maxReadAmount
